@@ -58,6 +58,33 @@ def p_accept(s):
     return None
 
 
+def p_other_objects(s):
+    """what from_string answers does not depend on other Version objects made, printed, hashed or compared before:
+    objects built field by field whose printed form is the same text (split at another hyphen, no revision, revision
+    "0", epoch given or not), nor on earlier calls with the same or a nearby string"""
+    t = s.strip()
+    e, u, r = policy_split(t) if t else (None, '', None)
+    body = t.partition(':')[2] if ':' in t else t
+    others = [(0 if e is None else e, body, None), (0 if e is None else e, body, '0'), (0, t, None), (None, t, '0')]
+    for i, ch in enumerate(body):
+        if ch == '-':
+            others.append((int(e) if (e or '').isdigit() else 0, body[:i], body[i + 1:]))
+    for ep, up, rv in others:
+        try:
+            o = Version(epoch=ep, upstream=up, revision=rv)
+            str(o), repr(o), hash(o), o == o, o.tuple()
+            format(o)
+            o.compare(o)
+        except Exception:  # noqa
+            pass
+    for near in (t + '-0', t + '-1', '0:' + t, t.lower(), t.upper()):
+        try:
+            str(Version.from_string(near))
+        except Exception:  # noqa
+            pass
+    return p_accept(s)
+
+
 def run(ctx):
     rng = ctx.rng
     unicode_sweep.sweep(ctx, ['is_space'])
@@ -102,6 +129,7 @@ def run(ctx):
     bad += ctx.compare('corr:_is_valid_version', [('valid_version', [s]) for s in pat], impl_pat)
 
     fails = ctx.prop('prop:accept/reject/decompose', allc, p_accept)
+    fails += ctx.prop('prop:independent-of-other-objects', (small[::7] + acc + rej[::3] + syn)[:ctx.n(20000, 200000)], p_other_objects)
     st = ctx.stream('prop:accept/reject/decompose')
     st['accepted'] = sum(1 for s in allc if _ver.valid(s))
     fails.sort(key=lambda f: len(f[0]))
